@@ -244,6 +244,9 @@ func vstrD(v ssa.Value, d int) string {
 	}
 	if d >= 100 {
 		s := vstrD1(v, d)
+		if rep, ok := loadRep[v]; ok {
+			return s + "@" + rep
+		}
 		switch x := v.(type) {
 		case *ssa.UnOp:
 			if x.Op == token.MUL || x.Op == token.ARROW {
